@@ -17,4 +17,8 @@ for d in kani/ext*; do
   cp /repo/Cargo.lock "$d/Cargo.lock"
   (cd "$d" && CARGO_TARGET_DIR="$PWD/../../build/kani-$(basename $d)" cargo kani -Z stubbing -Z function-contracts --only-codegen >/dev/null 2>&1 || true)
 done
+# native stand-ins: build every witness program once (release and debug profiles are both used by the units)
+cp /repo/Cargo.lock witness/Cargo.lock
+(CARGO_TARGET_DIR="$PWD/build/witness" cargo build --offline -q --release --manifest-path witness/Cargo.toml >/dev/null 2>&1 || true)
+(CARGO_TARGET_DIR="$PWD/build/witness" cargo build --offline -q --manifest-path witness/Cargo.toml >/dev/null 2>&1 || true)
 echo "setup done"
